@@ -473,9 +473,11 @@ def load_known():
 
 
 def write_evidence(prop, tier, seed, coverage, wall_s, violations, assumptions, level="proof"):
-    os.makedirs(os.path.join(VERIF, "evidence"), exist_ok=True)
+    # runs against a deliberately modified tree (tools/seedtest.sh) must not overwrite the evidence of the unchanged tree
+    evdir = os.environ.get("VERIF_EVIDENCE_DIR") or os.path.join(VERIF, "evidence")
+    os.makedirs(evdir, exist_ok=True)
     ev = {"property_id": prop, "tier": tier, "seed": seed, "level": level, "coverage": coverage,
           "assumptions": assumptions, "wall_s": round(wall_s, 2), "violations": violations}
-    with open(os.path.join(VERIF, "evidence", f"{prop}.json"), "w") as f:
+    with open(os.path.join(evdir, f"{prop}.json"), "w") as f:
         json.dump(ev, f, indent=1)
     return ev
